@@ -4,7 +4,8 @@ from props import gocommon
 THEOREMS = ["Folang.Props.C06." + t for t in "col_invariant_init col_invariant_step col_invariant indent_shift".split()] + \
     ["Folang.Tokenizer." + t for t in "scan_blanks nextNonSpace_blanks nextNonSpace_fuel spaceLen_blanks".split()] + \
     ["Folang.Props.C06Block." + t for t in "block_roundtrip layout_invariance dedent_ends_block overrun_rejected block_result_unique lay₁_lays lay₂_lays fact_columnUses".split()] + \
-    ["Folang.Offside." + t for t in "pStmt_lays pList_lays".split()]
+    ["Folang.Offside." + t for t in "pStmt_lays pList_lays".split()] + \
+    ["Folang.Props.C06Else." + t for t in "d21_rejected d21_misread inner_else_same_tree".split()]
 
 ASSUMPTIONS = [
     "offside scheme (Model/Offside.lean: parseBlock / parseStmtList / isEndOfBlock / psPushOffside / psSkipEOL over tokens that carry a kind and the tokenizer's column; every block opener - the = of a function definition, ->, then, else - is one token kind, every other token a word): block_roundtrip proves that EVERY layout of a block structure (each nested block at any column right of its opening statement, on the same line or after any number of end-of-line tokens, any columns for the other tokens of a line, any number of blank / comment lines) is read back as exactly that structure and that the parser stops at the first token left of the block; layout_invariance, dedent_ends_block, overrun_rejected are corollaries; fact_columnUses (regenerated) lists every function of fc that reads a column",
@@ -35,7 +36,7 @@ def run(ctx):
     ctx.partial += ["C06_full (for the whole real parser and emitter) not proved: the offside scheme is proved on the model of the block parser, the expression grammar inside statements is C08's, their composition with the emitter is decided per program by the layout stream"]
     ctx.build_go("extract")
     ctx.regenerate("offside", "OffsideFacts.lean")
-    mods = ["Folang.Props.C06", "Folang.Props.C06Block"]
+    mods = ["Folang.Props.C06", "Folang.Props.C06Block", "Folang.Props.C06Else"]
     ctx.lake_build(mods)
     ctx.audit(THEOREMS, mods)
     if ctx.tier == "thorough":
